@@ -345,6 +345,7 @@ def correspondence(chk, drv, C):
                 chk.count('test: implicit iteration not converging (input not contractive), skipped')
             continue
         val_b, pos_b = error_bound(bphi, bf, dt, B0, rmin, rmax, 0 if explicit else max(o_sweeps, 1))
+        slack = 0.0
         o_near_tol = any(abs(nm - tol) <= 1e-6 * tol for nm in o_norms)
         branches = set()
         if not o_near_tol:
@@ -400,10 +401,14 @@ def correspondence(chk, drv, C):
             if any(abs(Fr(nm) - Fr(tol)) <= Fr(tol) / 2 ** 30 for nm in out['norms']):
                 chk.count('discarded: a sweep norm within 2^-30 of tol')
                 continue
+            slack = 0.0
             if any(min(abs(Fr(x) - Fr(rmin)), abs(Fr(x) - Fr(rmax))) < MARGIN * width and Fr(x) not in (Fr(rmin), Fr(rmax)) for x in out['initr']):
-                chk.count('discarded: an Euler predictor within 2^-40 of the radial boundary (implicit)')
-                continue
-            if out['sweeps'] != o_sweeps and not o_near_tol:
+                # the first sweep may treat such a node as inside in doubles and outside exactly (or vice versa): the two
+                # iterations are then not comparable sweep by sweep, but both stop within tol of the same fixed point
+                # (contraction factor <= 1/2 by construction of dt): compare up to the stopping tolerance
+                chk.count('implicit: an Euler predictor within 2^-40 of the radial boundary, compared up to the stopping tolerance')
+                slack = 4 * tol * (bf['D10'] + bf['D01'])
+            elif out['sweeps'] != o_sweeps and not o_near_tol:
                 chk.diff('sweep count (model vs independent float implementation)', case, out['sweeps'], o_sweeps)
             chk.count('impl sweeps %s' % ('1' if out['sweeps'] == 1 else '2-5' if out['sweeps'] <= 5 else '6-20' if out['sweeps'] <= 20 else '>20'))
             val_b, pos_b = error_bound(bphi, bf, dt, B0, rmin, rmax, out['sweeps'])
@@ -423,7 +428,7 @@ def correspondence(chk, drv, C):
                 inside = Fr(rmin) <= fr <= Fr(rmax)
                 branches.add('spline' if inside else 'null-fill')
                 mv = Fr(nd['val'])
-                tolv = Fr(4 * val_b) if inside else Fr(0)
+                tolv = Fr(4 * val_b + slack) if inside else Fr(0)
                 d = abs(got - mv)
                 if d > tolv:
                     chk.diff('value', nc_, float(mv), float(got))
